@@ -314,8 +314,13 @@ def geometry_findings(case, r):
                 msg = (f"trunks of species {p!r} {tp} and {q!r} {tq} overlap"
                        + ("" if in_p else f"; trunk of {p!r} is not inside its own box {R(by[p]['rect'])}")
                        + ("" if in_q else f"; trunk of {q!r} is not inside its own box {R(by[q]['rect'])}"))
+                siblings = len(p) == len(q) and p[:-1] == q[:-1]
                 if in_p and in_q:
                     viol.append(msg + " although both lie inside their own boxes")
+                elif siblings:
+                    # the spacing of two sibling subtrees accounts for a trunk that sticks out of its box towards the
+                    # sibling: sibling trunks never overlap on the recorded finding, only an uncle's / cousin's trunk does
+                    viol.append(msg + " (sibling species)")
                 else:
                     known.append(KNOWN_TAG + ": " + msg)
     # anchors referenced by drawn branches
@@ -370,8 +375,69 @@ def observe14(case, r):       # runs in the parent process (Batch.observe): the 
     _SEEN.append((case, r))
 
 
+def deep_layout_verdict(n_leaves, orient="V"):
+    """A valid reconciliation whose object tree is a caterpillar of `n_leaves` genes (far deeper than the
+    interpreter's recursion limit) over the species tree (X,Y): the layout must exist and satisfy the box and
+    trunk clauses.  Built iteratively (the harness itself must not recurse)."""
+    from ete3 import Tree
+    from superrec2.model.reconciliation import ReconciliationInput, ReconciliationOutput
+    from superrec2.utils.trees import LowestCommonAncestor
+    from superrec2.render import layout
+    from superrec2.render.model import DrawParams, Orientation
+    from superrec2.utils import tex
+    sp = Tree()
+    sp.name = "XY"
+    x = sp.add_child(name="X")
+    y = sp.add_child(name="Y")
+    # caterpillar: a duplication chain in X, the last two genes split between X and Y (one speciation at the bottom)
+    bottom = Tree()
+    bottom.name = "s"
+    gx = bottom.add_child(name="X_0")
+    gy = bottom.add_child(name="Y_0")
+    leafmap = {gx: x, gy: y}
+    mapping = {gx: x, gy: y, bottom: sp}
+    cur = bottom
+    for i in range(1, n_leaves - 1):
+        up = Tree()
+        up.name = f"d{i}"
+        leaf = Tree()
+        leaf.name = f"X_{i}"
+        up.add_child(cur)
+        up.add_child(leaf)
+        leafmap[leaf] = x
+        mapping[leaf] = x
+        mapping[up] = sp
+        cur = up
+    rec = ReconciliationOutput(ReconciliationInput(cur, LowestCommonAncestor(sp), leafmap), mapping)
+    old = tex.measure
+    tex.measure = lambda texts, preamble="": [tex.MeasureBox(4.0, 3.0, 1.0) for _ in texts]
+    try:
+        lay = layout.compute(rec, DrawParams(orientation=Orientation.VERTICAL if orient == "V" else Orientation.HORIZONTAL))
+    except RecursionError:
+        return False, f"layout.compute raised RecursionError on a valid reconciliation whose object tree is {n_leaves - 1} levels deep"
+    except Exception as e:  # noqa: BLE001
+        return False, f"layout.compute raised {type(e).__name__} on a deep caterpillar ({n_leaves} leaves)"
+    finally:
+        tex.measure = old
+    rx, ry, rr = lay[x].rect, lay[y].rect, lay[sp].rect
+    inside = lambda a, b: a.x >= b.x - 1e-9 and a.y >= b.y - 1e-9 and a.x + a.w <= b.x + b.w + 1e-9 and a.y + a.h <= b.y + b.h + 1e-9
+    overlap = lambda a, b: a.x < b.x + b.w and b.x < a.x + a.w and a.y < b.y + b.h and b.y < a.y + a.h
+    if not (inside(rx, rr) and inside(ry, rr)) or overlap(rx, ry):
+        return False, "deep caterpillar: child species boxes not nested / overlapping"
+    n_br = sum(len(sl.branches) for sl in lay.values())
+    if n_br < 2 * n_leaves - 1:
+        return False, f"deep caterpillar: {n_br} branches laid out for {2 * n_leaves - 1} object nodes"
+    return True, "deep caterpillar laid out"
+
+
 def extra(ctx):
     """Run the property's own oracle on EVERY generated case (not only where model and implementation differ)."""
+    for n, orient in ((1500, "V"), (1200, "H")):
+        ok, why = deep_layout_verdict(n, orient)
+        ctx.evaluations += 1
+        ctx.dist.setdefault("deep_object_trees", []).append({"leaves": n, "orient": orient, "ok": ok})
+        if not ok:
+            ctx.findings.append(Finding("deep_tree", {"leaves": n, "orient": orient}, {"verdict": why}, "(layout of a very deep object tree)", False, why))
     already = {json.dumps(f.case, sort_keys=True) for f in ctx.findings}
     n_known = n_viol = 0
     seen_known = False
@@ -459,6 +525,16 @@ def search(ctx):
                     return Finding("layout", case, r, "(geometric oracle)", False, why)
     ctx.notes.append(f"failing-input search: {n} fresh layouts, none violates a clause")
     return None
+
+
+def replay_case(payload):
+    if payload.get("batch") == "deep_tree":
+        ok, why = deep_layout_verdict(payload["case"]["leaves"], payload["case"]["orient"])
+        return ok, why, {"verdict": why}
+    case = payload["case"]
+    r = impl14(case)
+    viol, known = geometry_findings(case, r)
+    return (not viol), (viol[0] if viol else "all clauses hold"), r
 
 
 def known_signature(finding, entry):
